@@ -534,7 +534,11 @@ def _apply_group_method_single_chunk(
 
 @nb.njit(parallel=True, cache=True)
 def reduce_array_pair(
-    x: np.ndarray, y: np.ndarray, reducer: Callable, counts: Optional[np.ndarray] = None
+    x: np.ndarray,
+    y: np.ndarray,
+    reducer: Callable,
+    counts: Optional[np.ndarray] = None,
+    y_counts: Optional[np.ndarray] = None,
 ):
     """
     Apply a reduction function element-wise to pairs of arrays using parallel processing.
@@ -580,6 +584,9 @@ def reduce_array_pair(
     """
     out = x.copy()
     for i in nb.prange(len(x)):
+        if y_counts is not None and y_counts[i] == 0:
+            # y[i] is an empty partial result, nothing to merge
+            continue
         if counts is None:
             count = 1
         else:
@@ -717,16 +724,19 @@ def combine_chunk_results_for_factorized_key(
     >>> print(combined)  # [15.0, 35.0, 55.0]
     """
     combined = chunks[0]
+    reducer = getattr(ScalarFuncs, reduce_func_name)
 
     if counts is None:
-        counts = np.zeros(len(chunks))
-        combined_count = 0
-    else:
-        combined_count = counts[0]
+        for chunk in chunks[1:]:
+            combined = reduce_array_pair(combined, chunk, reducer)
+        return combined, 0
 
+    combined_count = counts[0]
     for chunk, count in zip(chunks[1:], counts[1:]):
+        # the accumulated count tells the reducer whether `combined` holds a value yet,
+        # the chunk's own count whether the chunk has anything to contribute
         combined = reduce_array_pair(
-            combined, chunk, getattr(ScalarFuncs, reduce_func_name)
+            combined, chunk, reducer, counts=combined_count, y_counts=count
         )
         combined_count = combined_count + count
 
